@@ -236,7 +236,13 @@ pub fn run(args: &Args, scratch: &Path) -> ShardReport {
     let runs = args.u64("runs", 100);
     let rt = super::rt();
     let mut seeder = Rng::new(seed.wrapping_mul(48271) ^ shard.wrapping_mul(131));
+    let budget_s = args.u64("budget_s", 600);
+    let t0 = std::time::Instant::now();
     for run_no in 0..runs {
+        if t0.elapsed().as_secs() >= budget_s {
+            rep.notes.push(format!("time budget reached after {run_no} runs"));
+            break;
+        }
         let s = seeder.next();
         let mut r = Rng::new(s);
         let arbitrary = r.chance(1, 2);
@@ -292,7 +298,7 @@ pub fn run(args: &Args, scratch: &Path) -> ShardReport {
                     }
                     let (all, last, b, singles) = e.observe(hi).await;
                     let after = if matches!(op, Op::Reopen) { "after-reopen" } else { "live" };
-                    let cause: String = if rewrote { "after-rewritten-or-unordered-persist".into() } else { format!("last-op-{}", kinds.last().cloned().unwrap_or(0)) };
+                    let cause: String = if rewrote { "after-rewritten-or-unordered-persist".into() } else { ["?", "after-persist", "after-truncate", "after-replace_range", "after-purge", "after-reset", "after-flush", "after-reopen"][kinds.last().cloned().unwrap_or(0) as usize].to_string() };
                     if all != exp_all {
                         found.push((format!("{}-entries-differ-{after}[{mode}]:{cause}", e.name()), json!({"got": all.iter().map(|x| json!([x.0, x.1])).collect::<Vec<_>>(), "expected": exp_all.iter().map(|x| json!([x.0, x.1])).collect::<Vec<_>>()})));
                     }
@@ -303,8 +309,12 @@ pub fn run(args: &Args, scratch: &Path) -> ShardReport {
                             break;
                         }
                     }
-                    if last != model.last() {
-                        let c2 = if model.m.is_empty() && last > 0 { "stale-after-log-emptied".to_string() } else { cause.clone() };
+                    // where the contract is silent: a log emptied by purge may report the purge
+                    // boundary as its last index (the entries are compacted, not gone) or 0
+                    let emptied_by_purge = model.m.is_empty() && model.boundary.is_some_and(|b| b.index == last);
+                    if last != model.last() && !emptied_by_purge {
+                        let dir = if last > model.last() { "too-high" } else { "too-low" };
+                        let c2 = if model.m.is_empty() && last > 0 { "stale-after-log-emptied".to_string() } else if rewrote { format!("{dir}:after-rewritten-or-unordered-persist") } else { dir.to_string() };
                         found.push((format!("{}-last_index-differs-{after}[{mode}]:{c2}", e.name()), json!({"got": last, "expected": model.last()})));
                     }
                     let eb = model.boundary.map(|l| (l.index, l.term));
@@ -330,6 +340,15 @@ pub fn run(args: &Args, scratch: &Path) -> ShardReport {
             rep.sample(json!({"mode": mode, "ops": ops}));
         }
         for (sg, d) in found {
+            // Sequences with out-of-order / re-written indexes are reported per (engine, query)
+            // only: the detailed cause varies from sequence to sequence and the signature must
+            // name the same defect at every seed. Legal sequences keep the detailed signature.
+            let sg = if arbitrary {
+                let head = sg.split("-differ").next().unwrap_or(&sg).to_string();
+                format!("{head}-differs[arbitrary]")
+            } else {
+                sg
+            };
             rep.violation("C20", &sg, json!({"detail": d, "ops": ops}), json!({"seed": s, "mode": mode}));
         }
         let _ = std::fs::remove_dir_all(&dir);
